@@ -106,7 +106,8 @@ impl Property for C18 {
     fn rule(&self) -> &'static str {
         "2-6 targets (nested and sibling) built by redo -j1..4 with log capture on and raw output; every \
          script writes numbered stderr lines before, between and after its redo-ifchange calls: \
-         partial lines completed later, lines of 5 kB and 70 kB, lines that resemble structured records \
+         partial lines completed later (also in 3-5 pieces with pauses of 15 ms-1.5 s between them), \
+         lines of 5 kB and 70 kB, lines that resemble structured records \
          without being well-formed ones; the scheduler interleaves the writers with redo-log's reads, \
          sleeps and lock probes; afterwards `redo-log --no-pretty -r` replays the top target; oracle: a \
          stack-machine parse of both outputs attributes every line to a target; per target the \
@@ -128,10 +129,21 @@ impl Property for C18 {
         let mut mk_lines = |rng: &mut Rng, t: &str, stmts: &mut Vec<Stmt>, k: u64| {
             for _ in 0..k {
                 line_no += 1;
-                match rng.below(12) {
+                match rng.below(13) {
                     0 => {
                         stmts.push(Stmt::ErrPart(format!("{} part{} ", t, line_no)));
                         stmts.push(Stmt::Err(format!("completed{}", line_no)));
+                    }
+                    12 => {
+                        // progress-bar style: one line written in 3-5 pieces with
+                        // pauses in which a following redo-log polls the file
+                        stmts.push(Stmt::ErrPart(format!("{} progress{}", t, line_no)));
+                        for k in 0..rng.range(1, 3) {
+                            stmts.push(Stmt::Work(*rng.pick(&[15, 40, 120, 600, 1500])));
+                            stmts.push(Stmt::ErrPart(format!(" .{}", k)));
+                        }
+                        stmts.push(Stmt::Work(*rng.pick(&[15, 40, 120, 600])));
+                        stmts.push(Stmt::Err(format!(" finished{}", line_no)));
                     }
                     1 => stmts.push(Stmt::ErrLong { n: 5000, tag: format!("{} long{} ", t, line_no) }),
                     2 => stmts.push(Stmt::ErrLong { n: 70000, tag: format!("{} huge{} ", t, line_no) }),
